@@ -19,7 +19,10 @@ def file_content(g, name):
     k = g.random()
     if k < 0.55: return 'function(f_%s a)\nendfunction()\n' % ident
     if k < 0.7: return '#[[[\n# Doc of %s ✓\n#]]\nfunction(f_%s a b)\nendfunction()\nset(V_%s 1)\n' % (name, ident, ident)
-    if k < 0.8: return '#[[[ @module named.%s\n# module text\n#]]\n#[[[\n# fdoc\n#]]\nmacro(m_%s)\nendmacro()\n' % (ident, ident)
+    if k < 0.76: return '#[[[ @module named.%s\n# module text\n#]]\n#[[[\n# fdoc\n#]]\nmacro(m_%s)\nendmacro()\n' % (ident, ident)
+    if k < 0.8:      # the same, the module doccomment indented by more columns than its opener is long
+        ind = g.choice(['      ', '        ', '\t\t\t\t\t\t\t'])
+        return '%s#[[[ @module named.%s\n%s# module text\n%s#]]\n#[[[\n# fdoc\n#]]\nmacro(m_%s)\nendmacro()\n' % (ind, ident, ind, ind, ident)
     if k < 0.87: return '#[[[ @module\n# unnamed module text\n#]]\noption(O_%s "help")\n' % ident
     if k < 0.93: return ''
     return '# only a comment\n'
